@@ -122,7 +122,7 @@ func c07Shape(c *Ctx) {
 		}
 		c.Check("G", fnName(fn)+"/the four node constructions are present", len(found) == 4, fn.Pos(), len(found), fmt.Sprint(found))
 		pos := `^phi\(const:-2\|phi\(`
-		c.Guarded(fn, "keep the branch", ReturnWith(1, `^call:\(\*trie\.fullNode\)\.copy\(`), G("the child still exists, or at least two children remain", NotNil(`^call:\(\*trie\.Trie\)\.delete\(t, n\.\(\*trie\.fullNode\)#0\.Children\[key\[const:0\]\]`), Cmp(pos, "<", `^const:0$`)))
+		c.Guarded(fn, "keep the branch", ReturnWith(1, `^call:\(\*trie\.fullNode\)\.copy\(`), G("the child still exists, or at least two children remain", NotNil(`^call:\(\*trie\.Trie\)\.delete\(t, n\.\(\*trie\.fullNode\)#0\.Children\[key\[const:0\]\].*#1$`), Cmp(pos, "<", `^const:0$`)))
 		c.Guarded(fn, "leave a mismatching short node alone", ReturnWith(1, `^n\.\(\*trie\.shortNode\)#0$`), G("key diverges inside the node's key, or the subtree did not change", Cmp("^"+regexpQuote(ml)+"$", "<", `^call:len\(`+regexpQuote(sn)+`\.Key\)$`), False(regexpQuote(child)+`.*#0$`), NotNil(regexpQuote(child)+`.*#2$`)))
 		// the remaining-children scan looks at all 17 slots and distinguishes none / one / several
 		scan := len(findInstrs(fn, IfOn(`\+ const:1\) < const:17\)$`)))
